@@ -57,6 +57,40 @@ Theorem C19_lookup_at_any_time :
 Proof. intros reg cloud ts sched H s h now h' i c tg. exact (lookup_now_reach reg cloud ts sched H h now h' i c tg). Qed.
 Print Assumptions C19_lookup_at_any_time.
 
+(* (2'') every single answer, at the step that produces it, in ANY state.  "Routed from the repository" is only ever produced by
+   the second read of a lookup, on a record that is active and unexpired at the lookup time, and names that record's
+   client and target.  A legacy source (registry = 2, cloud control = 3) answers only when the repository has no mapping
+   for the name at that read (no index entry, or no record behind it) — never while the repository holds a mapping for it,
+   not even an inactive or expired one — and then with the registry's entry for that very name, else cloud control's, only
+   if that entry is active, not revoked and unexpired.  (In reachable states the name of the second read is the one the
+   Host resolves to: C19_lookup_second_read_is_for_the_resolved_name.) *)
+Theorem C19_routed_answer_reads_active_record :
+  forall (reg cloud : name -> option pmap) t s t' a h i c tg,
+  decide true true true true reg cloud t s = (t', a) -> out t' = RRouted 1 h i c tg :: out t ->
+  exists m n now, pc t = PCLRec h n i now /\ recs s i = Some m /\ is_active m now = true /\
+                  c = r_client m /\ tg = r_target m.
+Proof. exact routed_only_from_active. Qed.
+Print Assumptions C19_routed_answer_reads_active_record.
+
+Theorem C19_legacy_sources_answer_only_unowned_names :
+  forall (reg cloud : name -> option pmap) t s t' a src h i c tg,
+  decide true true true true reg cloud t s = (t', a) -> out t' = RRouted src h i c tg :: out t -> src <> 1 ->
+  exists n now,
+    ((pc t = Idle /\ n = extractDomain h /\ idx s n = None) \/ (exists j, pc t = PCLRec h n j now /\ recs s j = None)) /\
+    exists p, ((reg n = Some p /\ src = 2) \/ (reg n = None /\ cloud n = Some p /\ src = 3)) /\
+              p_id p = i /\ p_client p = c /\ p_target p = tg /\
+              p_active p = true /\ p_revoked p = false /\ (p_exp p = 0 \/ now <= p_exp p).
+Proof. exact legacy_answer_only_without_repository_mapping. Qed.
+Print Assumptions C19_legacy_sources_answer_only_unowned_names.
+
+Theorem C19_lookup_second_read_is_for_the_resolved_name :
+  forall (reg cloud : name -> option pmap) (ts : list thr) (sched : list nat),
+  (forall t, In t ts -> fresh_thr t) ->
+  let s := drun true true true true reg cloud empty_store ts sched in
+  forall t h n j now, In t (snd s) -> pc t = PCLRec h n j now -> n = extractDomain h.
+Proof. intros reg cloud ts sched H s t h n j now. exact (reach_lookup_pc reg cloud ts sched H t h n j now). Qed.
+Print Assumptions C19_lookup_second_read_is_for_the_resolved_name.
+
 (* (3) only the owner deletes: a DeleteMapping by a client that does not own the record is refused and leaves the
    store untouched (in any state); releases are performed by the claimant (clause 3 of C19_single_owner). *)
 Theorem C19_only_owner_deletes :
@@ -331,6 +365,14 @@ Theorem C19_cleanup_and_unbound_callers_run :
   glist (fst s) = [2] /\ stale_release (log (fst s)) = false.
 Proof. exact cleanup_run. Qed.
 Print Assumptions C19_cleanup_and_unbound_callers_run.
+
+(* the three lookup sources in one history (repository, registry, cloud control) *)
+Theorem C19_three_sources_run :
+  let s := drun true true true true legacy_reg legacy_cloud empty_store sources_threads (repeat 0 12 ++ repeat 1 6)%nat in
+  map out (snd s) = [[RErr EUnavailable; RUpdated; RRouted 1 host_a_port 1 1 11; RCreated 1];
+                     [RErr ENotFound; RErr EForbidden; RRouted 2 (full_domain nm_b nm_base ++ [58; 56; 48]) 71 7 701]].
+Proof. exact three_sources_run. Qed.
+Print Assumptions C19_three_sources_run.
 
 Theorem C19_repaired_run :
   let s := drun true true true true none_legacy none_legacy empty_store race_threads race_sched_fixed in
